@@ -753,6 +753,32 @@ int femmcli::LuaCommonCommands::luaCopyTranslate(lua_State *L)
     return 0;
 }
 
+namespace {
+/**
+ * @brief Index each property gets once all properties called propName are erased (-1: erased).
+ */
+template<class PropList, class NameOf>
+std::vector<int> indexAfterErase(const PropList &list, const std::string &propName, NameOf nameOf)
+{
+    std::vector<int> newIndex;
+    int k=0;
+    for (const auto &prop: list)
+        newIndex.push_back( nameOf(*prop)==propName ? -1 : k++ );
+    return newIndex;
+}
+/**
+ * @brief Let an entity's stored property index follow its property; release it if the property was erased.
+ */
+void remapIndex(const std::vector<int> &newIndex, int &idx, std::string &name)
+{
+    if (idx<0 || idx>=(int)newIndex.size())
+        return;
+    idx = newIndex[idx];
+    if (idx<0)
+        name = "<None>";
+}
+} // namespace
+
 /**
  * @brief Delete the given boundary property.
  * @param L
@@ -779,12 +805,17 @@ int femmcli::LuaCommonCommands::luaDeleteBoundaryProperty(lua_State *L)
 
     luaExpectParameterCount(L, 1);
     std::string propName = lua_tostring(L,1);
+    const std::vector<int> newIndex = indexAfterErase(doc->lineproplist, propName, [](const auto &prop){ return prop.BdryName; });
     doc->lineproplist.erase(
                 std::remove_if(doc->lineproplist.begin(),doc->lineproplist.end(),
                                [&propName](const auto& prop){ return prop->BdryName == propName; } ),
                 doc->lineproplist.end()
                 );
     doc->lineproplist.shrink_to_fit();
+    for (auto &segm: doc->linelist)
+        remapIndex(newIndex, segm->BoundaryMarker, segm->BoundaryMarkerName);
+    for (auto &asegm: doc->arclist)
+        remapIndex(newIndex, asegm->BoundaryMarker, asegm->BoundaryMarkerName);
     doc->updateLineMap();
 
     if (luaInstance->getDebugGeometry())
@@ -819,12 +850,21 @@ int femmcli::LuaCommonCommands::luaDeleteCircuitProperty(lua_State *L)
 
     luaExpectParameterCount(L, 1);
     std::string propName = lua_tostring(L,1);
+    const std::vector<int> newIndex = indexAfterErase(doc->circproplist, propName, [](const auto &prop){ return prop.CircName; });
     doc->circproplist.erase(
                 std::remove_if(doc->circproplist.begin(),doc->circproplist.end(),
                                [&propName](const auto& prop){ return prop->CircName == propName; } ),
                 doc->circproplist.end()
                 );
     doc->circproplist.shrink_to_fit();
+    for (auto &label: doc->labellist)
+        remapIndex(newIndex, label->InCircuit, label->InCircuitName);
+    for (auto &node: doc->nodelist)
+        remapIndex(newIndex, node->InConductor, node->InConductorName);
+    for (auto &segm: doc->linelist)
+        remapIndex(newIndex, segm->InConductor, segm->InConductorName);
+    for (auto &asegm: doc->arclist)
+        remapIndex(newIndex, asegm->InConductor, asegm->InConductorName);
     doc->updateCircuitMap();
 
     if (luaInstance->getDebugGeometry())
@@ -859,12 +899,15 @@ int femmcli::LuaCommonCommands::luaDeleteMaterial(lua_State *L)
 
     luaExpectParameterCount(L, 1);
     std::string propName = lua_tostring(L,1);
+    const std::vector<int> newIndex = indexAfterErase(doc->blockproplist, propName, [](const auto &prop){ return prop.BlockName; });
     doc->blockproplist.erase(
                 std::remove_if(doc->blockproplist.begin(),doc->blockproplist.end(),
                                [&propName](const auto& mat){ return mat->BlockName == propName; } ),
                 doc->blockproplist.end()
                 );
     doc->blockproplist.shrink_to_fit();
+    for (auto &label: doc->labellist)
+        remapIndex(newIndex, label->BlockType, label->BlockTypeName);
     doc->updateBlockMap();
 
     if (luaInstance->getDebugGeometry())
@@ -899,12 +942,15 @@ int femmcli::LuaCommonCommands::luaDeletePointProperty(lua_State *L)
 
     luaExpectParameterCount(L, 1);
     std::string propName = lua_tostring(L,1);
+    const std::vector<int> newIndex = indexAfterErase(doc->nodeproplist, propName, [](const auto &prop){ return prop.PointName; });
     doc->nodeproplist.erase(
                 std::remove_if(doc->nodeproplist.begin(),doc->nodeproplist.end(),
                                [&propName](const auto& prop){ return prop->PointName == propName; } ),
                 doc->nodeproplist.end()
                 );
     doc->nodeproplist.shrink_to_fit();
+    for (auto &node: doc->nodelist)
+        remapIndex(newIndex, node->BoundaryMarker, node->BoundaryMarkerName);
     doc->updateNodeMap();
 
     return 0;
